@@ -28,7 +28,7 @@ def runLine (outs : List (Out JNum)) : String :=
 def preludeJ : Option (Env JNum) := preludeEnv JNum
 
 def runProgram (d : Dialect) (prog input : String) : String :=
-  match preludeJ, parseProgram prog, (readJson input : Option (JV JNum)) with
+  match preludeJ, parseProgram prog d.succinctly, (readJson input : Option (JV JNum)) with
   | some env, some e, some v =>
     (match eval d fuelDefault e env v .off with
      | some outs => runLine outs
